@@ -112,8 +112,8 @@ func evalC02(c C02Case) *h.Finding {
 	}
 	o := h.RunS(cfg, be, segs, h.TermEOF)
 	desc := fmt.Sprintf("mode=%s msg=%q readmax=%d reject=%t limit=%d cuts=%v", c.Mode, c.Msg, c.ReadMax, c.Reject, c.Limit, c.Cuts)
-	if o.Panic != "" {
-		return h.F("c02-panic", "%s: handler panicked: %s", desc, o.Panic)
+	if f := o.Sanity("c02", desc); f != nil {
+		return f
 	}
 	if o.ParseErr != nil {
 		return h.F("c02-bad-wire", "%s: %v", desc, o.ParseErr)
